@@ -638,6 +638,29 @@ def loose_case(args):
 LOOSE_TOL = 2e-3
 
 
+# ------------------------------------------------------------------------------------------------
+# long times (cutoff * t up to 2000): eta and C of the hard-cutoff ohmic density at T = 0 against the closed forms
+# (sine / cosine integrals); the oscillatory integrands need the full subdivision limit of the quadrature
+
+def longtime_case(args):
+    from scipy.special import sici
+    alpha, wc, t = args
+    lib = oq.PowerLawSD(alpha, 1.0, wc, "hard", temperature=0.0)
+    x = wc * t
+    si, ci = sici(x)
+    eta_ref = 2 * alpha * ((np.euler_gamma + np.log(x) - ci) + 1j * (si - x))
+    c_ref = 2 * alpha * ((np.cos(x) + x * np.sin(x) - 1) / t ** 2 - 1j * (np.sin(x) - x * np.cos(x)) / t ** 2)
+    with warnings.catch_warnings():
+        warnings.simplefilter("ignore")
+        e = complex(lib.eta_function(t))
+        c = complex(lib.correlation(t))
+    return {"eta_re": abs(e.real - eta_ref.real) / abs(eta_ref.real), "eta_im": abs(e.imag - eta_ref.imag) / abs(eta_ref.imag),
+            "c": abs(c - c_ref) / (2 * alpha * wc / t)}
+
+
+LONG_TOL = 1e-6
+
+
 WINDOW_TOL = 1e-4          # relative to |C(0)| dt^2; the library integrates a discontinuous integrand with dblquad
 
 
@@ -676,6 +699,14 @@ def run(tier, seed):
                               {"kind": "scale", "args": list(j)}))
         else:
             smax = max(smax, max(x[1] for x in r["recs"]))
+    gj = [(0.25, wc_, t_) for wc_ in (1.0, 5.0) for t_ in (40.0, 150.0, 300.0, 400.0)]
+    gres = pmap(longtime_case, gj, seed=seed)
+    for j, r in zip(gj, gres):
+        for part in ("eta_re", "eta_im", "c"):
+            if not r[part] <= LONG_TOL:
+                rep.add(Violation(f"PowerLawSD|long-times|hard|T=0|{part.replace('_', '-')}-differs-from-closed-form",
+                                  f"alpha={j[0]} wc={j[1]} t={j[2]}: {part} off by {r[part]:.1e} relative",
+                                  {"kind": "longtime", "args": list(j)}))
     qj = [(a_, z, e_) for a_ in (1e-3, 1e-2, 0.25) for z in (1.0, 3.0) for e_ in (1e-5, 1e-7)]
     qres_ = pmap(loose_case, qj, seed=seed)
     for j, r in zip(qj, qres_):
@@ -784,6 +815,7 @@ def run(tier, seed):
     print(f"[C12] worker cpu {cpu:.0f} s", file=sys.stderr)
     rep.coverage = {
         "evaluations": n_eval + sum(len(r["recs"]) for r in wres),
+        "long_time_family": {"cases": len(gj), "worst": max(max(r.values()) for r in gres), "tolerance": LONG_TOL},
         "caller_epsrel_family": {"cases": len(qj), "worst_relative_deviation": max(r["worst"] for r in qres_), "tolerance": LOOSE_TOL},
         "time_lattice_family": {"points": sum(r["points"] for r in lres), "tolerance": LATTICE_TOL,
                                 "points_off_by_more_than_1e-8_relative": sum(r["above_1e-8"] for r in lres),
@@ -844,6 +876,10 @@ def run(tier, seed):
 def replay(rp):
     kind = rp["kind"]
     ob = rp.get("ob")
+    if kind == "longtime":
+        r = longtime_case(tuple(rp["args"]))
+        badp = [p_ for p_ in ("eta_re", "eta_im", "c") if not r[p_] <= LONG_TOL]
+        return {"obs": r, "violation": f"PowerLawSD|long-times|hard|T=0|{badp[0].replace('_', '-')}-differs-from-closed-form" if badp else None}
     if kind == "loose":
         j = rp["args"]
         r = loose_case(tuple(j))
